@@ -1,0 +1,123 @@
+//! Verification hooks.
+//!
+//! This module only exists when the crate is built with `--cfg calloop_verif`.
+//! It provides yield points (named places in the cross-thread protocols where an
+//! external harness can record the event and delay the calling thread),
+//! read-only statistics on the internal tables of a loop, and accessors for the
+//! raw poller keys. Nothing in here changes the behaviour of the loop; with no
+//! hook installed a yield point is a single relaxed atomic load.
+
+use std::sync::atomic::{AtomicUsize, Ordering};
+
+use crate::token::TokenInner;
+use crate::{Token, TokenFactory};
+
+/// A named place in calloop's code
+#[allow(missing_docs)]
+#[repr(u16)]
+#[derive(Copy, Clone, Debug, PartialEq, Eq, Hash, PartialOrd, Ord)]
+pub enum Site {
+    PingWritePre = 0,
+    PingWritePost,
+    PingClosePre,
+    PingDrainPre,
+    PingDrainPost,
+    PingCbPost,
+    ChanSyncBlockPre,
+    ChanRecvPre,
+    ExecSendPre,
+    ExecSwapPre,
+    ExecSwapPost,
+    ExecClearPre,
+    ExecClearPost,
+    ExecRecvPre,
+    ExecDropWakePre,
+    ExecDropDrainPre,
+    WaitPre,
+    WaitPost,
+    RunIterPre,
+    StopPre,
+    StopPost,
+    WakeupPre,
+    WakeupPost,
+    BoWakeMid,
+    BoSwapPost,
+    BoPollPost,
+}
+
+/// Number of sites
+pub const N_SITES: usize = Site::BoPollPost as usize + 1;
+
+static HOOK: AtomicUsize = AtomicUsize::new(0);
+
+/// Install (or remove) the process-wide yield hook
+pub fn set_yield_hook(hook: Option<fn(Site)>) {
+    HOOK.store(hook.map(|f| f as usize).unwrap_or(0), Ordering::SeqCst);
+}
+
+/// A yield point: calls the installed hook, if any
+#[inline]
+pub fn yield_point(site: Site) {
+    let raw = HOOK.load(Ordering::Relaxed);
+    if raw != 0 {
+        // SAFETY: the only non-zero values ever stored are `fn(Site)` pointers
+        let hook: fn(Site) = unsafe { std::mem::transmute::<usize, fn(Site)>(raw) };
+        hook(site);
+    }
+}
+
+/// A snapshot of the sizes of the internal tables of a loop
+#[derive(Copy, Clone, Debug, PartialEq, Eq, Default)]
+pub struct LoopStats {
+    /// number of slots of the source list (vacant ones included)
+    pub slots: usize,
+    /// number of slots currently holding a source
+    pub occupied: usize,
+    /// number of entries of the additional-lifecycle-events set
+    pub lifecycle_len: usize,
+    /// number of distinct entries of the additional-lifecycle-events set
+    pub lifecycle_distinct: usize,
+    /// number of entries of the timer heap
+    pub timer_heap_len: usize,
+    /// number of pending idle callbacks
+    pub idles_len: usize,
+    /// the loop-global pending post action (0 Continue, 1 Reregister, 2 Disable, 3 Remove)
+    pub pending_action: u8,
+}
+
+/// Pack a (slot id, slot version, sub id) triple into a poller key
+pub fn pack(id: u32, version: u16, sub_id: u16) -> usize {
+    usize::from(TokenInner::verif_from_parts(id, version, sub_id))
+}
+
+/// Unpack a poller key into its (slot id, slot version, sub id) triple
+pub fn unpack(key: usize) -> (u32, u16, u16) {
+    TokenInner::from(key).verif_parts()
+}
+
+/// The key of the slot after one more reuse (sub id reset)
+pub fn bump_version(key: usize) -> usize {
+    usize::from(TokenInner::from(key).increment_version())
+}
+
+/// The key with its sub id forgotten
+pub fn forget_sub_id(key: usize) -> usize {
+    usize::from(TokenInner::from(key).forget_sub_id())
+}
+
+/// Whether two keys designate the same source (slot id and version)
+pub fn same_source(a: usize, b: usize) -> bool {
+    TokenInner::from(a).same_source_as(TokenInner::from(b))
+}
+
+/// A token factory for the given slot id and version
+pub fn token_factory(id: u32, version: u16) -> TokenFactory {
+    TokenFactory::new(TokenInner::from(pack(id, version, 0)))
+}
+
+impl Token {
+    /// The raw poller key of this token
+    pub fn verif_key(&self) -> usize {
+        usize::from(self.inner)
+    }
+}
